@@ -362,8 +362,4 @@ def run(ctx):
                        'the LAMMPS style table strings are parsed by an independent grammar and typed by dimension and SI magnitude; set/get are inverse for the same factor; '
                        'the reduction half of parse() is extracted and compared with ordinary precedence on all operator patterns up to four operators; tokenizer structure; model keys. '
                        'Not decided: floating-point round-trip identity, random working-unit seeds.')
-    working_units(ctx)
-    style_tables(ctx)
-    inverse_pair(ctx)
-    precedence(ctx)
-    model_keys(ctx)
+    ctx.run_rules([working_units, style_tables, inverse_pair, precedence, model_keys])
